@@ -746,3 +746,89 @@ Example refines_private_hypotheses :
   names_ok [[65; 108]; [65; 108; 112; 104; 97]; [65; 108; 112; 104; 97; 66]]%N = true /\
   nth_error [[65; 108]; [65; 108; 112; 104; 97]; [65; 108; 112; 104; 97; 66]]%N 1 = Some [65; 108; 112; 104; 97]%N.
 Proof. split; vm_compute; reflexivity. Qed.
+
+(* ------------------------------------------------------------------------ *)
+(* concurrent savers                                                          *)
+(* bbolt serialises Update transactions (one writer lock per database) and a
+   Save returns only after its transaction is committed, so an execution with
+   concurrent savers is a LINEARISATION: some interleaving of the threads'
+   operation sequences that keeps each thread's own order, run sequentially.
+   (That is the assumption; it is bbolt's, not proved here.)  For every number
+   of threads and every interleaving, the value of a key after quiescence is
+   the last save of the linearisation, and that is the LAST save of that key by
+   SOME thread -- never a value that its own writer overwrote later. *)
+
+Inductive interleaving {A : Type} : list (list A) -> list A -> Prop :=
+| il_done : forall ts, Forall (fun t => t = []) ts -> interleaving ts []
+| il_step : forall pre t x post l,
+    interleaving (pre ++ t :: post) l -> interleaving (pre ++ (x :: t) :: post) (x :: l).
+
+Lemma last_saved_acc k l : forall acc,
+  last_saved k l acc = match last_saved k l None with Some v => Some v | None => acc end.
+Proof.
+  induction l as [|h l IH]; intros acc; [reflexivity|].
+  destruct h as [[|s] o|]; simpl; try apply IH.
+  destruct o; try apply IH.
+  rewrite (IH (if key_ok k0 then if bytes_eqb k k0 then Some v else acc else acc)),
+          (IH (if key_ok k0 then if bytes_eqb k k0 then Some v else None else None)).
+  destruct (last_saved k l None); [reflexivity|].
+  destruct (key_ok k0); [|reflexivity]. now destruct (bytes_eqb k k0).
+Qed.
+
+Lemma last_saved_cons k h l :
+  last_saved k (h :: l) None =
+  match last_saved k l None with Some v => Some v | None => last_saved k [h] None end.
+Proof.
+  destruct h as [[|s] o|]; simpl; try now destruct (last_saved k l None).
+  destruct o; simpl; try now destruct (last_saved k l None).
+  apply last_saved_acc.
+Qed.
+
+Theorem quiescent_value_is_some_threads_last k threads l :
+  interleaving threads l ->
+  match last_saved k l None with
+  | Some v => exists t, In t threads /\ last_saved k t None = Some v
+  | None => forall t, In t threads -> last_saved k t None = None
+  end.
+Proof.
+  induction 1 as [ts F|pre t x post l I IH].
+  - simpl. intros t Ht. rewrite Forall_forall in F. now rewrite (F t Ht).
+  - rewrite last_saved_cons. destruct (last_saved k l None) as [v|] eqn:E.
+    + destruct IH as [t' [Ht' L']]. apply in_app_or in Ht' as [Hp|[<-|Hp]].
+      * exists t'. split; [apply in_or_app; now left|assumption].
+      * exists (x :: t). split; [apply in_or_app; right; now left|].
+        now rewrite last_saved_cons, L'.
+      * exists t'. split; [apply in_or_app; right; now right|assumption].
+    + assert (Lt : last_saved k (x :: t) None = last_saved k [x] None).
+      { rewrite last_saved_cons. rewrite (IH t); [reflexivity|]. apply in_or_app. right. now left. }
+      destruct (last_saved k [x] None) as [v|] eqn:X.
+      * exists (x :: t). split; [apply in_or_app; right; now left|assumption].
+      * intros t' Ht'. apply in_app_or in Ht' as [Hp|[<-|Hp]].
+        -- apply IH. apply in_or_app. now left.
+        -- assumption.
+        -- apply IH. apply in_or_app. right. now right.
+  Qed.
+
+(* with the characterisation of the private database: whatever the number of
+   saver threads and however they were interleaved, a load after quiescence
+   returns the last save of that key by one of the threads, or nothing if no
+   thread (successfully) saved it *)
+Corollary concurrent_savers_quiescent_load dec n k threads l :
+  interleaving threads l ->
+  match last (houts dec [n] (l ++ [HOp 0 (OLoadRaw k)])) RCrash with
+  | RBytes v => exists t, In t threads /\ last_saved k t None = Some v
+  | RNone => forall t, In t threads -> last_saved k t None = None
+  | _ => False
+  end.
+Proof.
+  intros I. destruct (private_load_is_last_save dec n k l) as [-> _].
+  pose proof (quiescent_value_is_some_threads_last k threads l I) as Q.
+  now destruct (last_saved k l None).
+Qed.
+
+Example interleaving_example :
+  interleaving [[1; 2]; [3]] [1; 3; 2].
+Proof.
+  apply (il_step [] [2] 1 [[3]]). apply (il_step [[2]] [] 3 []).
+  apply (il_step [] [] 2 [[]]). apply il_done. repeat constructor.
+Qed.
